@@ -4,7 +4,7 @@ from engine.driver import poly as P
 from engine.driver.core import Ob, eq, eqs
 from engine.driver.encode import Constraint
 from spec import catalogue as cat
-from spec.treeutil import cleared, is_coord, subst_affine
+from spec.treeutil import cleared, is_coord, subst_affine, tier_caps, cap_sets
 
 ID = "C10"
 HARNESS = "C10_prescribed.cpp"
@@ -20,10 +20,10 @@ EXPLANATION = ("Model A = catalogue tree with one mobilizer governed by Motion::
                "B is given f - tau through Force::DiscreteForces, realized, and its udot equals A's; (3) getMotionMultipliers is the packed "
                "form of findMotionForces; calcMotionPower = -tau.u; calcMotionErrors = 0 at all three levels; (4) after unlock() / "
                "Motion::disable() the same state gives q,u unchanged and udot equal to the free twin's.")
-BOUNDS = ("tree catalogue (spec/catalogue.py), each tree with 2 (quick) / 5 (thorough) scenarios drawn from VERIF_SEED out of the 14 "
+BOUNDS = ("tree catalogue (spec/catalogue.py), each tree with 2 (quick) / 3 (thorough) scenarios drawn from VERIF_SEED out of the 14 "
           "(steady, sin/custom x 3 levels, lock/lockAt x 3 levels, lockByDefault), governed body = base or last body; u, f, trial a, prescribed "
-          "table values, amplitude, Steady rate free; k free coordinates at a time (quick: one choice + the all-pinned set; thorough: up to 10), "
-          "others pinned at exact rational base points (2 quick / 6 thorough); Sinusoid: either time = 0 with symbolic rate, or rate = 2 with "
+          "table values, amplitude, Steady rate free; k free coordinates at a time (quick: one choice + the all-pinned set; thorough: up to 4), "
+          "others pinned at exact rational base points (2 quick / 4 thorough); Sinusoid: either time = 0 with symbolic rate, or rate = 2 with "
           "symbolic time (sin/cos of the compound argument is one shared term); hinge-inertia inverses assumed to exist; lockByDefault is not "
           "applied to CantileverFreeBeam (its default q is uninitialised memory, see report)")
 NOT_COVERED = ("combination with constraints (multipliers via LAPACK, C08); several mobilizers prescribed at once (covered for acceleration-level "
@@ -39,7 +39,7 @@ def instances(tier, seed):
     order = []
     for n, spec, euler in cat.tree_specs(tier, seed, "C10"):
         mobs = [t.split(":")[0] for t in spec.split(",")]
-        nsc = 2 if tier == "quick" else 5
+        nsc = 2 if tier == "quick" else 3
         for j in range(nsc):
             if not order:
                 order = SCEN[:]
@@ -55,7 +55,7 @@ def instances(tier, seed):
             out.append(dict(name="%s|%s@%d" % (n, sc, k), args=args, sc=sc))
             if j == 0:
                 out.append(dict(name="%s|%s@%d|composed" % (n, sc, k), args=args[:4] + ["1", str(tm)], sc=sc, composed=True))
-    return out
+    return tier_caps(out, tier)
 
 
 ALWAYS = ("u", "f_", "a_", "rate", "amp", "pqd", "pu", "pa", "lu", "la")
@@ -68,7 +68,7 @@ def free_sets(inst, tr, tier, rng):
         return [lin]
     if tier == "quick":
         return fs[:1] + ([lin] if lin not in fs[:1] else [])
-    return fs
+    return cap_sets(fs, tier, 4)
 
 
 def obligations(enc, inst, tr):
